@@ -17,6 +17,14 @@ func newExplorer(run func(prefix []int32) *vrt.Result, check func(prefix []int32
 // compares with a fresh query built after the change.  Returns the rendered second result, the
 // rendered fresh result and the first error / panic met ("" if none).
 func execMutateExec(doc map[string]any, sql string, opts []genql.QueryOption, mutate func()) (second, fresh, problem string) {
+	second, fresh, problem, _ = execMutateExecF(doc, sql, opts, mutate, false)
+	return
+}
+
+// execMutateExecF: with firstMayFail a failing first execution is tolerated (and reported through
+// firstFailed) - the history "an execution fails, the caller repairs the rows, the same Query is
+// executed again".
+func execMutateExecF(doc map[string]any, sql string, opts []genql.QueryOption, mutate func(), firstMayFail bool) (second, fresh, problem string, firstFailed bool) {
 	vrt.Run(gq.Seq, nil, func() {
 		defer func() {
 			if rec := recover(); rec != nil {
@@ -29,8 +37,11 @@ func execMutateExec(doc map[string]any, sql string, opts []genql.QueryOption, mu
 			return
 		}
 		if _, err := q.Exec(); err != nil {
-			problem = "first Exec: " + err.Error()
-			return
+			if !firstMayFail {
+				problem = "first Exec: " + err.Error()
+				return
+			}
+			firstFailed = true
 		}
 		mutate()
 		rows2, err := q.Exec()
